@@ -7,7 +7,6 @@ the real CLI (polar.main -> BayesNetworkAction -> Query.generate_result) for `--
 Oracle (no Polar code): the generator's own exact CPTs (Fractions), enumeration of the joint law, the oracle's own
 .prob parser + exact engine executing the generated program text, E(X^k | evidence) and 1/P(evidence) by enumeration.
 """
-import itertools
 import os
 import random
 import shutil
@@ -19,15 +18,17 @@ from ..gen import bif as B
 from . import common as K
 
 ID = "C15"
-RULE = ("cases = seeded random Bayesian networks (2-6 variables quick / 2-7 thorough, domain sizes 2-4, <= 3 parents, "
-        "exact decimal CPT rows incl. zero/one/tiny entries, variable and value names needing sanitising, names colliding "
-        "after sanitising or with the query helper variables, rarely names that become constants/keywords), each written in "
-        "4 BIF notations (table / entries only / default+entries / mixed with overwritten default and table, shuffled "
-        "attribute and block order, all FLOAT spellings and separators), 2-3 queries (exact inference with power 1-3(4) / "
-        "sampling time; evidence sets of 1-3 variables with positive probability) and ~6 mutated documents (row sums off by "
-        "tol/100..0.9 tol -> accept, 1.1 tol..1 -> reject, missing entry/value/CPT, wrong table length, duplicate entry). "
-        "non-trivial = the joint has >= 2 positive states and the loop law and >= 1 printed query answer were compared; "
-        "distinct = distinct (network spec, queries) fingerprints")
+RULE = ("cases = 2 transcribed textbook networks (cancer with the pre-observed witness query, survey with its published "
+        "variable name E) + seeded random Bayesian networks (2-6 variables quick / 2-7 thorough, domain sizes 2-4, <= 3 parents, "
+        "CPTs of <= 9 rows quick / <= 16 thorough, exact decimal rows incl. zero/one/near-one/tiny entries, variable and value "
+        "names needing sanitising, names colliding after sanitising or with the query helper variables, rarely names that "
+        "are constants/keywords of the .prob language), each written in 4 BIF notations (table / entries only / "
+        "default+entries / mixed with overwritten default and table; shuffled attribute, block and parent order; all FLOAT "
+        "spellings and separators), 2-4 queries (exact inference with power 1-3(4) / sampling time; evidence sets of 1-4 "
+        "conjuncts with positive probability) and 6-10 mutated documents (effective row sums off by tol/100..0.9 tol -> must "
+        "be accepted, 1.1 tol..1 -> must be rejected, missing entry/value/CPT, wrong table length, duplicate entry) under "
+        "tolerances 1e-2..1e-6. non-trivial = the joint has >= 2 positive states and the loop law and >= 1 printed query "
+        "answer were compared; distinct = distinct (network spec, queries, tolerance) fingerprints")
 ASSUMPTIONS = [
     "BIF semantics as stated in the property: CPT assembly default -> table (own value slowest, parents in product order) -> entries; values numbered by domain position",
     "semantics of the .prob language as implemented by polarmon/lang/parser.py + polarmon/ref/engine.py (used to execute the generated program text)",
